@@ -26,6 +26,18 @@ extern "C" void AnnotateIgnoreWritesEnd(const char*, int);
 extern "C" int __sanitizer_symbolize_pc(void* pc, const char* fmt, char* out, unsigned long len);
 #endif
 
+#ifdef TROMPELOEIL_CUSTOM_RECURSIVE_MUTEX
+// secondary configuration (thorough tier): the library's own customisation point, served by a std::recursive_mutex
+// so that the custom branch of get_lock() runs and its lock/unlock calls are still scheduler events
+#include <mutex>
+namespace trompeloeil {
+std::unique_ptr<custom_recursive_mutex> create_custom_recursive_mutex() {
+  struct M : custom_recursive_mutex { std::recursive_mutex m; void lock() override { m.lock(); } void unlock() override { m.unlock(); } };
+  return std::unique_ptr<custom_recursive_mutex>(new M);
+}
+}
+#endif
+
 namespace sim {
 
 namespace {
